@@ -322,13 +322,27 @@ def validate_obligations():
     return obs
 
 
+def encode_obligations():
+    """LANG/normalizeLink/returns-encoded: every return of normalizeLink is mdurl.encode(...) - so, with the assumed
+    contract on mdurl.encode (URL-safe ASCII output), every emitted destination is percent-encoded"""
+    q = "markdown_it.common.normalize_url.normalizeLink"
+    try:
+        mi, fn, canon = S.resolve_function(q)
+    except S.SourceError as e:
+        return [{"oid": f"{q}/LANG/exists", "verdict": "undecided", "func": q, "info": str(e)}]
+    rets = [n for n in ast.walk(fn) if isinstance(n, ast.Return)]
+    bad = [r for r in rets if not (isinstance(r.value, ast.Call) and ast.unparse(r.value.func) == "mdurl.encode")]
+    return [{"oid": f"{canon}/LANG/returns-encoded", "verdict": "discharged" if rets and not bad else "failed", "func": canon,
+             "info": f"all {len(rets)} return statements are mdurl.encode(...)" if rets and not bad else f"returns without encoding at line(s) {[r.lineno for r in bad]}", "witness": ""}]
+
+
 def add_url_obligations(rep, prop):
-    allobs = typestate_obligations() + validate_obligations()
+    allobs = typestate_obligations() + validate_obligations() + encode_obligations()
     for o in allobs:
         kind = "TYPESTATE" if "/TYPESTATE/" in o["oid"] else "LANG"
         rep.obs.append(Ob(oid=f"{prop}/{o['oid']}", kind=kind, func=o["func"], backend="typestate" if kind == "TYPESTATE" else "lang", verdict=o["verdict"], info=o["info"],
                           line=o.get("line", 0), seconds=o.get("seconds", 0.0), model=o.get("witness", ""), solver="path-sensitive abstract interpretation" if kind == "TYPESTATE" else "z3-regex"))
-        if o["verdict"] == "failed" and kind == "LANG" and o.get("witness") is not None:
+        if o["verdict"] == "failed" and kind == "LANG" and o.get("witness") and "validateLink" in o["oid"]:
             # replay the solver's witness on the real function
             try:
                 from markdown_it.common.normalize_url import validateLink
